@@ -5,9 +5,7 @@
    "-:Field" = a legacy field filled from prefixed keys (meta_*, oidc_additional_*, plugin.* sections, allow_ports).
    Reviewed against the documented legacy keys.  A crossed, dropped, added or re-guarded assignment in
    pkg/config/legacy/conversion.go, a renamed ini tag or a renamed json tag of a target makes
-   C18_legacy_conversion_matches fail.
-   NOTE pprof_enable (server) is guarded by dashboard_tls_mode at the pinned commit: pinned as it is and
-   reported (design/C18.md). *)
+   C18_legacy_conversion_matches fail. *)
 From FRP Require Import Model.LegacyConvCheck.
 Local Open Scope string_scope.
 Definition golden_legacy_conv : list lc_entry :=
@@ -89,7 +87,7 @@ Definition golden_legacy_conv : list lc_entry :=
    ("server", "dashboard_tls_mode", "webServer.tls", "newif", "dashboard_tls_mode");
    ("server", "dashboard_tls_cert_file", "webServer.tls.certFile", "copy", "dashboard_tls_mode");
    ("server", "dashboard_tls_key_file", "webServer.tls.keyFile", "copy", "dashboard_tls_mode");
-   ("server", "pprof_enable", "webServer.pprofEnable", "copy", "dashboard_tls_mode");
+   ("server", "pprof_enable", "webServer.pprofEnable", "copy", "");
    ("server", "enable_prometheus", "enablePrometheus", "copy", "");
    ("server", "log_file", "log.to", "copy", "");
    ("server", "log_level", "log.level", "copy", "");
